@@ -307,6 +307,19 @@ func (s *Safety) onStorage(e *Event) {
 		if !ok {
 			return
 		}
+		// only applied, hence committed, entries are compacted away: remember them as committed
+		// before they disappear from the stored log (status sampling may never have seen them)
+		for j := l.bi + 1; j <= st.Index; j++ {
+			ce, _ := l.at(j)
+			if c, ok := s.committed[j]; ok {
+				if c != ce {
+					s.v("C01", "C01/committed-prefix-mismatch", fmt.Sprintf("index %d: %s compacts (t%d,ty%d,h%x) into a snapshot, but (t%d,ty%d,h%x) was committed earlier (event %d)", j, e.Node, ce.T, ce.Y, ce.H, c.T, c.Y, c.H, s.committedSeq[j]), s.committedSeq[j], e.Seq)
+				}
+			} else {
+				s.committed[j] = ce
+				s.committedSeq[j] = e.Seq
+			}
+		}
 		l.ents = append([]EntryInfo(nil), l.ents[st.Index-l.bi:]...)
 		l.bi, l.bt = st.Index, en.T
 	case "log.discard":
@@ -646,18 +659,6 @@ func (s *Safety) onSnapFile(e *Event) {
 	if sn.LedgerLast > sn.Index {
 		s.v("C10", "C10/snapshot-contains-later-op", fmt.Sprintf("%s %s snapshot labelled index %d contains the operation applied at index %d", e.Node, sn.Origin, sn.Index, sn.LedgerLast), e.Seq)
 	}
-	// the configuration stored with the snapshot is the one committed at or before its label
-	var ci uint64
-	for i, c := range s.committed {
-		if c.Y == 2 && i <= sn.Index && i > ci {
-			ci = i
-		}
-	}
-	if ci > 0 && sn.Conf != "" {
-		if s.committed[ci].H != HashBytes([]byte("conf:"+sn.Conf)) {
-			s.v("C10", "C10/snapshot-configuration", fmt.Sprintf("%s %s snapshot labelled index %d carries configuration %q, which is not the configuration committed at index %d", e.Node, sn.Origin, sn.Index, sn.Conf, ci), e.Seq)
-		}
-	}
 	if c, ok := s.committed[sn.Index]; ok && c.T != sn.Term {
 		s.v("C10", "C10/snapshot-label-term", fmt.Sprintf("%s snapshot labelled (%d,t%d) but index %d was committed in term %d", e.Node, sn.Index, sn.Term, sn.Index, c.T), e.Seq)
 	}
@@ -805,6 +806,17 @@ func (s *Safety) Finish() []Violation {
 	// snapshots are exact: the ledger in a snapshot labelled i is the applied order up to i
 	for _, e := range s.snapFiles {
 		sn := e.Snap
+		// the configuration stored with the snapshot is the one committed at or before its label
+		// (judged at the end of the history, when the committed set is as complete as it gets)
+		var ci uint64
+		for i, c := range s.committed {
+			if c.Y == 2 && i <= sn.Index && i > ci {
+				ci = i
+			}
+		}
+		if ci > 0 && sn.Conf != "" && s.committed[ci].H != HashBytes([]byte("conf:"+sn.Conf)) {
+			s.v("C10", "C10/snapshot-configuration", fmt.Sprintf("%s %s snapshot labelled index %d carries configuration %q, which is not the configuration committed at index %d", e.Node, sn.Origin, sn.Index, sn.Conf, ci), e.Seq)
+		}
 		if sn.DecodeErr != "" {
 			continue
 		}
